@@ -26,7 +26,7 @@ IdealLearn(p, b) ==
                    !.opt = [o \in Opts |-> Fresh(10 + o)], !.greedy = Fresh(21)]
 Resync(v) == [v EXCEPT !.w = [n \in Nets |-> IF Shape.shadow[n] # 0 THEN v.w[Shape.shadow[n]] ELSE v.w[n]]]
 IdealMutate(p, k, h) ==
-  CASE k = "none"  -> [p EXCEPT !.mut = "None"]
+  CASE k = "none"  -> Resync([p EXCEPT !.mut = "None"])
     [] k = "arch"  -> Resync([p EXCEPT !.mut = "add_node", !.arch = [n \in Nets |-> Fresh(30)], !.acfg = [n \in Nets |-> Fresh(32)],
                                        !.w = [n \in Nets |-> Fresh(n)], !.opt = [o \in Opts |-> 7], !.greedy = Fresh(22)])
     [] k = "param" -> Resync([p EXCEPT !.mut = "param", !.w = [p.w EXCEPT ![Shape.policy] = Fresh(1)],
